@@ -238,7 +238,10 @@ pub(crate) fn on_task_update(
     // And this cannot happen in any other way
     let is_prefill_update = updates.len() == 2
         && matches!(updates[0], WorkerTaskUpdate::Finished { .. })
-        && matches!(updates[1], WorkerTaskUpdate::RunningPrefilled { .. });
+        && matches!(&updates[1], WorkerTaskUpdate::RunningPrefilled(msg)
+            // If the prefilled task was canceled in the meantime, the worker stops it
+            // and the freed resources have to be offered to other tasks
+            if core.find_task(msg.task_id).is_some());
     for update in updates {
         match update {
             WorkerTaskUpdate::Finished { task_id } => {
